@@ -449,7 +449,9 @@ class Message:
         if size > MAX_MEMORY_SIZE:
             raise OutOfGasError(f"calldata read {start=} {size=} > MAX_MEMORY_SIZE")
 
-        return self.data.slice(start=start, stop=start + size)
+        # the data of a creation message is the init code, not calldata (calldata is empty there)
+        data = ByteVec() if self.is_create() else self.data
+        return data.slice(start=start, stop=start + size)
 
 
 @dataclass(frozen=False, slots=True, eq=False, order=False)
